@@ -1,5 +1,7 @@
 import LentilVerif.Lemmas.Propagate
 import LentilVerif.Lemmas.Canvas
+import LentilVerif.Props.C01
+import LentilVerif.Gen.PlaneType
 /-! # C02 — far-field propagation puts the Fraunhofer field on the right output samples
 
 Property theorems only. The integer window logic is the *generated* kernel (`Gen.dftWindow`, `Gen.maskShape`,
@@ -28,7 +30,7 @@ theorem propagateField_sample (hcast : ∀ n : Int, (RealLike.ofInt n : R) = (n 
   · -- a field is produced; its extent is the intersection extent
     unfold propagateField
     rw [dftWindow_some oe P0 P1 t.fix0 t.fix1 hoe hP hi]
-    simp only [embO, Fld.emb, Fld.extent, dft2_s0, dft2_s1]
+    simp only [embO, Fld.emb, Fld.extent, dft2_shape0, dft2_shape1]
     rw [inter_roundtrip _ _ hi]
     unfold embAt
     by_cases hin : (intersectionExtent oe (propExtent P0 P1 t.fix0 t.fix1)).inb r c = true
@@ -53,9 +55,9 @@ theorem propagateField_sample (hcast : ∀ n : Int, (RealLike.ofInt n : R) = (n 
       exact hi (inter_inb_imp_intersect _ _ r c ((inter_inb_iff _ _ r c).mpr ⟨h1, h2⟩))
     simp only [hb, Bool.false_eq_true, if_false]
 
-/-- **Output shape, propagation shape, oversampling and mask only choose which samples are evaluated.** Two calls that
-differ in the output extent (shape·oversample, or any mask box) and in the propagation shape give the same value at
-every global coordinate that both evaluate (for the same sampling ratios `α`). -/
+/-- **Output shape, propagation shape and mask only choose which samples are evaluated.** Two calls that differ in the
+output extent (any output shape, or any mask box) and in the propagation shape give the same value at every global
+coordinate that both evaluate, for the same sampling ratios `α` and the same shift. (Oversampling: `oversample_only_scales`.) -/
 theorem window_only_selects (hcast : ∀ n : Int, (RealLike.ofInt n : R) = (n : R))
     (t : TField K R) (αr αc : R) (oe oe' : Extent) (P0 P1 P0' P1' : Int)
     (hoe : oe.rmin ≤ oe.rmax ∧ oe.cmin ≤ oe.cmax) (hP : 0 < P0 ∧ 0 < P1)
@@ -107,7 +109,7 @@ theorem propagateField_extent (t : TField K R) (αr αc : R) (oe : Extent) (P0 P
     rw [dftWindow_some oe P0 P1 t.fix0 t.fix1 hoe hP hi] at hg
     simp only [Option.some.injEq] at hg
     subst hg
-    simp only [Fld.extent, dft2_s0, dft2_s1]
+    simp only [Fld.extent, dft2_shape0, dft2_shape1]
     exact inter_roundtrip _ _ hi
   · have hn : intersect oe (propExtent P0 P1 t.fix0 t.fix1) = false := by
       cases h : intersect oe (propExtent P0 P1 t.fix0 t.fix1) <;> simp_all
@@ -141,6 +143,88 @@ theorem propagateDft_sample {K R : Type} [CommRing R] [RealLike R] [Semiring K] 
   apply List.map_congr_left
   intro t _
   exact propagateField_sample hcast t αr αc _ _ _ hoe hP _ _
+
+/-! ## The sampling ratio, oversampling and the metadata (generated wiring: `Gen.dftAlpha`, `Gen.dftAlphaCall`, `Gen.dftOutMeta`,
+`Gen.dftShapeOut`, re-translated from `_dft_alpha` and `propagate_dft` on every run) -/
+
+/-- **alpha = dx·du/(wavelength·focal_length·oversample) on each axis**, with the wavefront's own pixelscale, wavelength
+and focal length and the requested output pixelscale — row axis from index 0, column axis from index 1 -/
+theorem alpha_formula {R : Type} [Field R] [RealLike R] (dx0 dx1 du0 du1 wl z : R) (os : Int) :
+    dftAlpha dx0 dx1 du0 du1 wl z os =
+      (dx0 * du0 / (wl * z * RealLike.ofInt os), dx1 * du1 / (wl * z * RealLike.ofInt os)) := rfl
+
+/-- **The result carries the input wavelength and focal length and a sampling of du/oversample** (wavefront and every
+output Field), has shape `shape·oversample`, and the plane type is flipped pupil ↔ image (`_propagate_ptype`, generated
+for C08); an untyped wavefront is refused. -/
+theorem metadata_carried {R : Type} [Field R] [RealLike R] (dx0 dx1 du0 du1 wl z : R) (os S0 S1 : Int) :
+    dftMeta dx0 dx1 du0 du1 wl z os = (wl, (du0 / RealLike.ofInt os, du1 / RealLike.ofInt os), z) ∧
+    Gen.dftFieldPixelscale du0 du1 (RealLike.ofInt os : R) = (du0 / RealLike.ofInt os, du1 / RealLike.ofInt os) ∧
+    Gen.dftShapeOut S0 S1 os = (S0 * os, S1 * os) ∧
+    Gen.codePropagate .pupil = .ok .image ∧ Gen.codePropagate .image = .ok .pupil ∧
+    Gen.codePropagate .none = .refused .typeError := ⟨rfl, rfl, rfl, rfl, rfl, rfl⟩
+
+/-- **Oversampling enters only through alpha and the sample grid.** Propagating with `oversample = os` onto `shape`,
+`prop_shape` is the same computation as propagating with `oversample = 1` onto `shape·os`, `prop_shape·os` with the same
+sampling ratios; and the sampling ratio for `os` is that for `os = 1` divided by `os`. So sample `k` of the oversampled
+grid is the Fraunhofer sum at `k/os` output pixels — nothing else depends on `os`. -/
+theorem oversample_only_scales {K R : Type} [Field R] [RealLike R] [Add K] [Mul K] [Zero K] [CxLike K R]
+    (h1 : (RealLike.ofInt 1 : R) = 1)
+    (fs : List (TField K R)) (αr αc : R) (S0 S1 P0 P1 os : Int) (mask : Option Extent) (dx0 dx1 du0 du1 wl z : R) :
+    propagateDft fs αr αc S0 S1 P0 P1 os mask = propagateDft fs αr αc (S0 * os) (S1 * os) (P0 * os) (P1 * os) 1 mask ∧
+    dftAlpha dx0 dx1 du0 du1 wl z os =
+      ((dftAlpha dx0 dx1 du0 du1 wl z 1).1 / RealLike.ofInt os, (dftAlpha dx0 dx1 du0 du1 wl z 1).2 / RealLike.ofInt os) := by
+  constructor
+  · simp only [propagateDft, Gen.dftShapeOut, Gen.dftPropShapeOut, mul_one]
+  · simp only [dftAlpha, Gen.dftAlphaCall, Gen.dftAlpha, h1, mul_one]
+    refine Prod.ext ?_ ?_ <;> simp only [div_div]
+
+/-! ## The value is the Fraunhofer sum (composition with C01 at `K = ℂ`, `R = ℝ`) -/
+
+/-- the model's point evaluation is the unitary Fraunhofer double sum over the field's samples, `X`, `Y` the global input
+coordinates (array index minus `floor(n/2)` plus the field's offset), `(p, q)` the real output coordinate -/
+theorem fraunhoferAt_eq_sum (f : Fld ℂ) (αr αc p q : ℝ) :
+    fraunhoferAt f αr αc p q =
+      ((Real.sqrt |αr * αc| : ℝ) : ℂ) *
+      ∑ x ∈ Finset.range f.arr.s0.toNat, ∑ y ∈ Finset.range f.arr.s1.toNat, f.arr.get x y *
+        Complex.exp (-(2 * Real.pi * Complex.I) *
+          ((αr * (((x : ℤ) - f.arr.s0 / 2 + f.o0 : ℤ) : ℝ) * p + αc * (((y : ℤ) - f.arr.s1 / 2 + f.o1 : ℤ) : ℝ) * q : ℝ) : ℂ)) := by
+  unfold fraunhoferAt
+  rw [C01.dft2_eq_defining_sum]
+  simp only [if_true]
+  congr 1
+  refine Finset.sum_congr rfl fun x _ => Finset.sum_congr rfl fun y _ => ?_
+  congr 4
+  norm_num
+
+/-- **`Wavefront.field` of the propagated wavefront is the Fraunhofer sum.** With `alpha = dx·du/(λ z os)` per axis
+(`alpha_formula`), sample `[i][j]` of the output array equals the sum, over the input fields whose window
+`out_extent ∩ prop_extent` contains the sample's global coordinate `g = (i - ⌊S0·os/2⌋, j - ⌊S1·os/2⌋)`, of
+`√|αr αc| · Σ_x Σ_y f(x, y) · exp(-2πi(αr·X·(g_r - s_r) + αc·Y·(g_c - s_c)))` with `s = fix + sub` the field's shift — and is
+exactly zero where no field evaluates it. -/
+theorem propagateDft_sample_fraunhofer (fs : List (TField ℂ ℝ)) (dx0 dx1 du0 du1 wl z : ℝ)
+    (S0 S1 P0 P1 os : Int) (mask : Option Extent)
+    (hoe : (outExtent (S0 * os) (S1 * os) mask).rmin ≤ (outExtent (S0 * os) (S1 * os) mask).rmax ∧
+           (outExtent (S0 * os) (S1 * os) mask).cmin ≤ (outExtent (S0 * os) (S1 * os) mask).cmax)
+    (hP : 0 < P0 * os ∧ 0 < P1 * os) (i j : Int) (hi : 0 ≤ i ∧ i < S0 * os) (hj : 0 ≤ j ∧ j < S1 * os) :
+    (wavefrontField 1 (propagateDft fs (dftAlpha dx0 dx1 du0 du1 wl z os).1 (dftAlpha dx0 dx1 du0 du1 wl z os).2
+        S0 S1 P0 P1 os mask) (S0 * os) (S1 * os)).get i j =
+      (fs.map fun t =>
+        if (outExtent (S0 * os) (S1 * os) mask).inb (i - S0 * os / 2) (j - S1 * os / 2) &&
+           (propExtent (P0 * os) (P1 * os) t.fix0 t.fix1).inb (i - S0 * os / 2) (j - S1 * os / 2)
+        then
+          ((Real.sqrt |dx0 * du0 / (wl * z * os) * (dx1 * du1 / (wl * z * os))| : ℝ) : ℂ) *
+          ∑ x ∈ Finset.range t.fld.arr.s0.toNat, ∑ y ∈ Finset.range t.fld.arr.s1.toNat, t.fld.arr.get x y *
+            Complex.exp (-(2 * Real.pi * Complex.I) *
+              ((dx0 * du0 / (wl * z * os) * (((x : ℤ) - t.fld.arr.s0 / 2 + t.fld.o0 : ℤ) : ℝ) * (((i - S0 * os / 2 - t.fix0 : ℤ) : ℝ) - t.sub0)
+                + dx1 * du1 / (wl * z * os) * (((y : ℤ) - t.fld.arr.s1 / 2 + t.fld.o1 : ℤ) : ℝ) * (((j - S1 * os / 2 - t.fix1 : ℤ) : ℝ) - t.sub1) : ℝ) : ℂ))
+        else 0).sum := by
+  rw [propagateDft_sample (fun _ => rfl) fs _ _ S0 S1 P0 P1 os mask hoe hP i j hi hj]
+  congr 1
+  apply List.map_congr_left
+  intro t _
+  split
+  · rw [fraunhoferAt_eq_sum]; rfl
+  · rfl
 
 /-! ## Non-vacuity: the hypotheses are satisfiable by concrete, non-trivial instances -/
 section
